@@ -156,7 +156,14 @@ func cmdReplayHosts(args []string) error {
 					if withRepeat {
 						list += "10.0.0.9 " + names[0] + "\n"
 					}
-					st, err := filterlist.NewRuleStorage([]filterlist.RuleList{&filterlist.StringRuleList{ID: 5, RulesText: list}})
+					// every 3rd list has the id 0 and the tested line as its very first one: storage index 0 is a rule
+					// like any other
+					listID := 5
+					if lines%3 == 0 && !withLong {
+						listID = 0
+						list = line + "\n" + strings.Replace(list, line+"\n", "", 1)
+					}
+					st, err := filterlist.NewRuleStorage([]filterlist.RuleList{&filterlist.StringRuleList{ID: listID, RulesText: list}})
 					if err != nil {
 						return err
 					}
